@@ -293,6 +293,24 @@ pub fn build_pool(compressed: bool) -> Pool {
     Pool { compressed, by_type, tiny, ver, bad }
 }
 
+/// frames well beyond 255 bytes (compressed mode announces up to 1020): counted kinds with many elements
+pub fn big_frames(compressed: bool) -> Vec<Vec<u8>> {
+    let mut big_frames: Vec<Vec<u8>> = vec![];
+    for (ty, head, elt, counts) in [(54u8, 8usize, 8usize, vec![30usize, 31, 40, 60]), (38, 4, 28, vec![8, 9, 16]), (37, 4, 6, vec![40]), (65, 8, 4, vec![61, 62, 120])] {
+        for n in counts {
+            let mut len = head + elt * n;
+            while len % 4 != 0 { len += 1; }
+            if len > (if compressed { 1020 } else { 252 }) { continue; }
+            let mut f = vec![0u8; len];
+            f[0] = size_byte(compressed, len); f[1] = ty; f[3] = n as u8;
+            if ty == 65 { for i in 0..n { f[head + 4 * i..head + 4 * i + 4].copy_from_slice(&(0x8000_0000u32 + i as u32).to_le_bytes()); } }
+            let c = classify(compressed, &f);
+            if c != "E" && c != "F" && c != "P" { big_frames.push(f); }
+        }
+    }
+    big_frames
+}
+
 pub fn class_table(compressed: bool, frames: &[Vec<u8>]) -> (String, BTreeMap<Vec<u8>, String>) {
     let mut m = BTreeMap::new();
     for f in frames {
